@@ -194,6 +194,41 @@ fn decode_family(seed_rng: &mut Rng, tier: Tier) -> Scenario {
     sc
 }
 
+/// Systematic layer: for one valid message, every truncation offset, a grown length prefix /
+/// integer at every digit position (1, 10 and 20 extra digits), and every byte position replaced
+/// by each structural byte. Within one base message this enumerates all single-mutation placements.
+fn systematic_family(rng: &mut Rng) -> Scenario {
+    let mut sc = Scenario::new("c14_decode");
+    sc.entropy_seed = rng.next();
+    let v6 = rng.chance(1, 2);
+    let base = valid_message(rng, v6);
+    sc.params.insert("systematic".into(), 1);
+    for k in 0..=base.len() {
+        sc.inputs.push(base[..k].to_vec());
+    }
+    for (pos, b) in base.iter().enumerate() {
+        if b.is_ascii_digit() {
+            for extra in [1usize, 10, 20] {
+                let mut v = base[..pos].to_vec();
+                v.extend(std::iter::repeat(b'9').take(extra));
+                v.extend_from_slice(&base[pos..]);
+                v.truncate(1500);
+                sc.inputs.push(v);
+            }
+        }
+    }
+    for pos in 0..base.len() {
+        for r in [b'd', b'l', b'i', b'e', b':', b'-', b'0', 0xffu8] {
+            if base[pos] != r {
+                let mut v = base.clone();
+                v[pos] = r;
+                sc.inputs.push(v);
+            }
+        }
+    }
+    sc
+}
+
 fn run_decode(sc: &Scenario) -> Result<RunLog, String> {
     let inputs = sc.inputs.clone();
     let seed = sc.entropy_seed;
@@ -313,7 +348,9 @@ impl Property for C14 {
     }
     fn generate(&self, seed: u64, idx: u64, tier: Tier) -> Scenario {
         let mut rng = Rng::new(seed ^ 0xC14 ^ idx.wrapping_mul(0x9E37_79B9_7F4A_7C15));
-        if idx % 2 == 0 {
+        if idx % 4 == 2 {
+            systematic_family(&mut rng)
+        } else if idx % 2 == 0 {
             decode_family(&mut rng, tier)
         } else {
             node_family(&mut rng, tier)
@@ -354,6 +391,9 @@ impl Property for C14 {
                 }
             }
             v.nontrivial = errs > 0;
+            if sc.param("systematic") != 0 {
+                v.hit_n("systematic_single_mutation_inputs", sc.inputs.len() as u64);
+            }
             v.hit_n("decode_ok", oks);
             v.hit_n("decode_err", errs);
             v.sample = json!({"family": "decode", "inputs": sc.inputs.len(), "ok": oks, "err": errs, "max_single_alloc": max_peak,
@@ -416,7 +456,7 @@ impl Property for C14 {
         v
     }
     fn rule(&self) -> &'static str {
-        "even indices: 200..400 structure-aware hostile byte strings (<=1500 B) per case through the public Message::decode on a 2 MiB stack under a counting allocator; odd indices: 1..3 real serving nodes + stubs under normal traffic, 20..400 hostile datagrams from several addresses plus in-flight corruption/duplication/recv errors, then a fault-free liveness phase (ping, get_state, load_contacts, local_addr, search). non-trivial = at least one input rejected (decode) / at least one hostile datagram delivered (node); distinct = distinct order digests"
+        "indices = 2 mod 4: systematic single-mutation enumeration of one valid message (every truncation offset, grown length prefix at every digit, every byte replaced by each structural byte); other even indices: 200..400 structure-aware hostile byte strings (<=1500 B) per case through the public Message::decode on a 2 MiB stack under a counting allocator; odd indices: 1..3 real serving nodes + stubs under normal traffic, 20..400 hostile datagrams from several addresses plus in-flight corruption/duplication/recv errors, then a fault-free liveness phase (ping, get_state, load_contacts, local_addr, search). non-trivial = at least one input rejected (decode) / at least one hostile datagram delivered (node); distinct = distinct order digests"
     }
     fn assumptions(&self) -> Vec<&'static str> {
         vec![
@@ -425,6 +465,6 @@ impl Property for C14 {
         ]
     }
     fn required_reach(&self) -> Vec<&'static str> {
-        vec!["hostile_datagrams", "decode_err", "liveness_pings_ok"]
+        vec!["hostile_datagrams", "decode_err", "liveness_pings_ok", "systematic_single_mutation_inputs"]
     }
 }
